@@ -431,6 +431,10 @@ impl Recorder {
     /// Write evidence, print verdict lines, return the process exit code.
     pub fn finish(&self, level: &str, rule: &str, assumptions: &[&str]) -> i32 {
         let wall = self.start.elapsed().as_secs_f64();
+        if !["exploration", "fault_enumeration", "model_checking", "proof", "translation_validation", "other"].contains(&level) {
+            // EVIDENCE.schema.json: `level` is an enum; anything else makes the file "no evidence"
+            self.health_error(format!("evidence level {level:?} is not one of the schema's enum values"));
+        }
         let violations = self.violations.lock().unwrap().clone();
         let known = self.known_hits.lock().unwrap().clone();
         let health = self.health.lock().unwrap().clone();
